@@ -6,7 +6,7 @@ CONSTANTS
   NVs <- NVs_all
   MaskKinds <- Masks_quick
   SubKinds <- Subs_quick
-  Reprs <- Reprs_all
+  Reprs <- Reprs_quick
   BadShapes <- Bad_all
   AltLabels = TRUE
 CHECK_DEADLOCK FALSE
